@@ -201,10 +201,117 @@ def run(chk):
             if bad and "differs-atom" not in reported:
                 reported.add("differs-atom")
                 chk.violation("results differ [ranks > jobs]", "rank %d of %d differs from the single-rank run on the Hubbard atom" % (r, P), conf)
+    cold_stage(chk, h, quick, rng, reported)
+    subcomm_stage(chk, h, quick, rng, reported)
     chk.extra["delay_hook"] = "POMEROL_VERIF_DELAY_SEED is passed to every launch; it has effect only when the hook commit is present in /repo"
     chk.rule = ("configurations (ranks P, number of 2PGF components, split/unsplit, purge/keep, OpenMP threads, delay seed) on a two-site "
                 "model; each launch is compared rank by rank with the single-rank single-thread run of the same commands; non-trivial = P > 1; "
                 "signature = (P, components, mode, divisibility class)")
+
+
+# a low-temperature dimer: several world-stripes of a two-particle component carry no term at all (all four weights below the
+# coefficient tolerance), so some parts of a component are EMPTY -- they must still be evaluable on every rank
+COLD = "site A 1 2\nsite B 1 2\naddCoulombS A 4 -1\naddCoulombS B 4 -1\naddHopping4 A B 1\nbeta 32\n"
+
+
+def compare_c2(o, ref, clear, tables_here):
+    """returns None or (kind, text) for the records of one rank against a single-rank reference of the same components"""
+    if not o["done"]:
+        return ("rank did not finish", "did not reach the end")
+    if tables_here:
+        for k in ref["table"]:
+            if k not in o["table"]:
+                return ("table missing", "no table returned for component %s" % "".join(k))
+            if not close(o["table"][k], ref["table"][k]):
+                return ("table differs", "returned table of component %s differs from the single-rank run (%s vs %s)" % ("".join(k), o["table"][k][:4], ref["table"][k][:4]))
+    if not clear:
+        for k in ref["eval"]:
+            if not close(o["eval"].get(k, []), ref["eval"][k]):
+                return ("evaluation differs", "evaluating listed component %s from its terms gives %s, single-rank run %s"
+                        % ("".join(k), o["eval"].get(k, ["(missing)"])[:4], ref["eval"][k][:4]))
+    return None
+
+
+def cold_stage(chk, h, quick, rng, reported):
+    """parts without a single term (low temperature): tables and on-demand evaluation on every rank, split and unsplit"""
+    fr = " ".join("%d %d %d" % f for f in FREQS[:7])
+    qs = QUADS[:3]
+    for split in (0, 1):
+        cmd = "c2 %d 0 %d %s 7 %s\nchi 0 1 0 1 0 7 %s\n" % (split, len(qs), " ".join("%d %d %d %d" % q for q in qs), fr, fr)
+        rc, ranks, err = launch(h, 1, cmd, threads=1, timeout=120, model=COLD)
+        ref = parse(ranks[0])
+        if rc != 0 or not ref["done"]:
+            chk.tie_broken("h_c06 reference run (cold model)", "rc=%s %s" % (rc, err))
+            continue
+        for P in ((2, 3, 5) if quick else (2, 3, 4, 5, 7, 8)):
+            seed = rng.randint(1, 10 ** 6)
+            rc, ranks, err = launch(h, P, cmd, threads=2, timeout=60, seed=seed, model=COLD)
+            chk.case("cold %d %d" % (P, split), "P=%d cold model (parts without terms) %s" % (P, "split" if split else "nosplit"), True, None)
+            conf = {"P": P, "model": COLD, "commands": cmd, "threads": 2, "delay_seed": seed, "harness": "h_c06"}
+            key = "cold [%s]" % ("split" if split else "nosplit")
+            if key in reported:
+                continue
+            if rc != 0:
+                reported.add(key)
+                chk.violation(("hang " if rc == 124 else "crash ") + key, "low-temperature dimer (beta=32, parts without terms) on %d ranks: %s"
+                              % (P, "the run does not terminate within the timeout" if rc == 124 else "mpiexec exit %d: %s" % (rc, err[-200:])), conf)
+                continue
+            for r in sorted(ranks):
+                o = parse(ranks[r])
+                bad = compare_c2(o, ref, 0, split or r == 0)
+                if bad is None and not close(o["chieval"].get(("0", "1", "0", "1"), []), ref["chieval"][("0", "1", "0", "1")]):
+                    bad = ("direct evaluation differs", "evaluating a directly computed TwoParticleGF gives %s, single-rank run %s"
+                           % (o["chieval"].get(("0", "1", "0", "1"), [])[:4], ref["chieval"][("0", "1", "0", "1")][:4]))
+                if bad:
+                    reported.add(key)
+                    chk.violation("%s %s" % (bad[0], key), "low-temperature dimer (beta=32: some parts of a component carry no term), rank %d of %d: %s" % (r, P, bad[1]), conf)
+                    break
+
+
+def subcomm_stage(chk, h, quick, rng, reported):
+    """the container on communicators other than the world: the world is split into groups, every group computes ITS OWN list of
+    components on ITS OWN communicator, all groups at the same time (lists of equal and of different length); every rank is compared
+    with the single-rank run of its group's list"""
+    fr = " ".join("%d %d %d" % f for f in FREQS[:5])
+    lists = {"equal lengths": [QUADS[0:2], QUADS[2:4]], "different lengths": [QUADS[0:1], QUADS[1:4]], "three groups": [QUADS[0:2], QUADS[3:4], QUADS[1:3]]}
+    refs = {}
+    for name, groups in sorted(lists.items()):
+        ng = len(groups)
+        for split in (1, 0):
+            for clear in (0, 1):
+                if quick and clear and name != "equal lengths":
+                    continue
+                for P in ((ng, ng + 2) if quick else (ng, ng + 1, ng + 2, 2 * ng + 1, 3 * ng)):
+                    cmd = "c2sub %d %d %d 5 %s %s\n" % (ng, split, clear, fr, " ".join("%d %s" % (len(g), " ".join("%d %d %d %d" % q for q in g)) for g in groups))
+                    seed = rng.randint(1, 10 ** 6)
+                    rc, ranks, err = launch(h, P, cmd, threads=1, timeout=60, seed=seed)
+                    chk.case("subcomm %s %d %d %d" % (name, P, split, clear), "sub-communicators (%s) %s P=%d" % (name, "split" if split else "nosplit", P), True, None)
+                    conf = {"P": P, "model": MODEL, "commands": cmd, "threads": 1, "delay_seed": seed, "harness": "h_c06"}
+                    key = "sub-communicators [%s]" % ("split" if split else "nosplit")
+                    if key in reported:
+                        continue
+                    if rc != 0:
+                        reported.add(key)
+                        chk.violation(("hang " if rc == 124 else "crash ") + key,
+                                      "%d groups of ranks computing their own component lists (%s) on their own communicators at the same time, P=%d, clear=%d: %s"
+                                      % (ng, name, P, clear, "the run does not terminate within the timeout" if rc == 124 else "mpiexec exit %d: %s" % (rc, err[-200:])), conf)
+                        continue
+                    for r in sorted(ranks):
+                        g = r % ng
+                        rk = (tuple(groups[g]), split, clear)
+                        if rk not in refs:
+                            c1 = "c2 %d %d %d %s 5 %s\n" % (split, clear, len(groups[g]), " ".join("%d %d %d %d" % q for q in groups[g]), fr)
+                            rc1, rr, e1 = launch(h, 1, c1, threads=1, timeout=120)
+                            refs[rk] = parse(rr[0])
+                        grp = [t for t in ranks[r] if t[0] == "GROUP"]
+                        sub_rank = int(grp[0][2]) if grp else -1
+                        bad = compare_c2(parse(ranks[r]), refs[rk], clear, split or sub_rank == 0)
+                        if bad:
+                            reported.add(key)
+                            chk.violation("%s %s" % (bad[0], key),
+                                          "%d groups of ranks computing their own component lists (%s) on their own communicators at the same time, P=%d, clear=%d: "
+                                          "world rank %d (group %d, rank %d of its communicator): %s" % (ng, name, P, clear, r, g, sub_rank, bad[1]), conf)
+                            break
 
 
 def setup():
